@@ -3,7 +3,7 @@ Driver extension for the extended heap histories (Lib/HeapX.lean): op "heapx_his
 Request: {"op": "heapx_history", "ops": [op ...]}; the operations of Lib/Heap.lean in the encoding of "heap_history"
   (decoded by the `baseOp` handed in by Main) plus ["swapaxes", k, a, b], ["rollaxis", k, d], ["T", k],
   ["newaxis", k, name, pos], ["slice", k, d, start, stop, step], ["sum", k, d], ["add_arr", k, j],
-  ["reindex", k, d, [label ...]].
+  ["reindex", k, d, [label ...]], ["ds_var", k] (ds = Dataset(); ds['v'] = env[k]; ds['v']).
 Answer:  {"lib": [snapshots of all live arrays after each step], "share": [sharing of all pairs after each step]}
 -/
 import DimModel.Driver.Codec
@@ -25,6 +25,7 @@ def heapXOp (baseOp : Json → P Heap.Op) (j : Json) : P Heap.XOp := do
     | "sum", [k, d] => do pure (.reduceSum (← nat k) (← nat d))
     | "add_arr", [k, l] => do pure (.addArr (← nat k) (← nat l))
     | "reindex", [k, d, ls] => do pure (.reindexAxis (← nat k) (← nat d) (← listOf int ls))
+    | "ds_var", [k] => do pure (.dsVar (← nat k))
     | _, _ => do pure (.base (← baseOp j))
   | [] => throw "empty heap op"
 
